@@ -593,17 +593,19 @@ class Oracle(stateful.Stateful):
             self.end_order.append(trial.trial_id)
             self._check_consecutive_failures()
 
-        self._save_trial(trial)
-        self.save()
-
-        self._display.on_trial_end(trial)
-
-        # Pop the ongoing trial at last, which would notify the chief server to
-        # stop when ongoing_trials is empty.
+        # Pop the ongoing trial before saving, so that the saved state never
+        # lists an ended trial as ongoing. The chief server stops when
+        # ongoing_trials is empty, which it can only observe after this
+        # synchronized call returns.
         for tuner_id, ongoing_trial in self.ongoing_trials.items():
             if ongoing_trial.trial_id == trial.trial_id:
                 self.ongoing_trials.pop(tuner_id)
                 break
+
+        self._save_trial(trial)
+        self.save()
+
+        self._display.on_trial_end(trial)
 
     def _retry(self, trial):
         """Send the trial for retry if needed.
